@@ -351,7 +351,7 @@ Proof.
   change (existsb (fun d => d =? c_hash) Q) with (contains c_hash Q). rewrite (no_hash_query Q HQ).
   change (c_qm =? c_hash) with false. cbn [orb].
   assert (G : get_scheme (P ++ c_qm :: Q) = SNone) by (rewrite E; reflexivity).
-  rewrite G. rewrite cut_app by (now apply no_qm_path).
+  rewrite G. unfold parse_rest. rewrite cut_app by (now apply no_qm_path).
   rewrite E. cbn [has_prefix]. change (c_sl =? c_sl) with true. rewrite (N.eqb_sym c_sl ch), Hc. cbn [andb negb].
   rewrite <- E. rewrite HP, HQ. cbn [andb].
   cbn [p_scheme p_host p_path p_query]. rewrite (resolve_path_abs _ P segs C). now destruct P.
@@ -366,8 +366,218 @@ Proof.
   change (fun c => (33 <=? c) && (c <=? 126)) with printable. rewrite HL. cbn [negb orb].
   cbn [contains existsb]. change (c_qm =? c_hash) with false. cbn [orb].
   change (existsb (fun d => d =? c_hash) Q) with (contains c_hash Q). rewrite (no_hash_query Q HQ).
-  change (get_scheme (c_qm :: Q)) with SNone. cbn [cut]. rewrite N.eqb_refl.
+  change (get_scheme (c_qm :: Q)) with SNone. unfold parse_rest. cbn [cut]. rewrite N.eqb_refl.
   cbn [has_prefix negb andb contains existsb cut fst forallb]. rewrite HQ.
   cbn [p_scheme p_host p_path p_query].
   now rewrite (resolve_path_clean _ segs C).
+Qed.
+
+Lemma no_sl_host h : forallb host_char h = true -> contains c_sl h = false.
+Proof. apply contains_forallb. reflexivity. Qed.
+Lemma no_qm_host h : forallb host_char h = true -> contains c_qm h = false.
+Proof. apply contains_forallb. reflexivity. Qed.
+Lemma no_hash_host h : forallb host_char h = true -> contains c_hash h = false.
+Proof. apply contains_forallb. reflexivity. Qed.
+
+(* the authority part "//host/path?query" (forms 3 and 4 share it) *)
+Lemma parse_authority_rest sch h hc ht P segs Q :
+  h = hc :: ht -> forallb host_char h = true -> host_ok h = true ->
+  clean_path P segs -> forallb path_char P = true -> forallb query_char Q = true ->
+  parse_rest sch (c_sl :: c_sl :: h ++ P ++ c_qm :: Q) = POk (mkP sch (Some h) P (Some Q)).
+Proof.
+  intros Eh Hh Hok C HP HQ. destruct (clean_path_head P segs C) as (ch & t & E & Hc).
+  unfold parse_rest.
+  replace (c_sl :: c_sl :: h ++ P ++ c_qm :: Q) with ((c_sl :: c_sl :: h ++ P) ++ c_qm :: Q)
+    by (simpl; now rewrite <- app_assoc).
+  rewrite cut_app.
+  2:{ simpl. rewrite contains_app. rewrite (no_qm_host h Hh). now apply no_qm_path. }
+  assert (Hhc : (c_sl =? hc) = false).
+  { subst h. simpl in Hh. apply andb_true_iff in Hh as [A _].
+    destruct (N.eqb_spec c_sl hc); [subst hc; vm_compute in A; discriminate|reflexivity]. }
+  assert (T3 : has_prefix [c_sl; c_sl; c_sl] (c_sl :: c_sl :: h ++ P) = false).
+  { rewrite Eh. cbn [has_prefix app]. change (c_sl =? c_sl) with true. now rewrite Hhc. }
+  assert (T2 : has_prefix [c_sl; c_sl] (c_sl :: c_sl :: h ++ P) = true) by reflexivity.
+  assert (T1 : has_prefix [c_sl] (c_sl :: c_sl :: h ++ P) = true) by reflexivity.
+  rewrite T1, T3, T2. cbn [negb andb skipn].
+  rewrite E. rewrite cut_app by (now apply no_sl_host). rewrite <- E. rewrite Hok, HP, HQ. cbn [andb].
+  now destruct sch.
+Qed.
+
+(* form 3: <http://host/path?query> *)
+Theorem resolve_absolute base h hc ht P segs Q :
+  h = hc :: ht -> forallb host_char h = true -> host_ok h = true ->
+  clean_path P segs -> forallb path_char P = true -> forallb query_char Q = true ->
+  link_ok (b "http://" ++ h ++ P ++ c_qm :: Q) ->
+  resolve_ref base (b "http://" ++ h ++ P ++ c_qm :: Q) = ROk (mkS (b "http") h P Q).
+Proof.
+  intros Eh Hh Hok C HP HQ HL.
+  unfold resolve_ref, parse_ref. unfold link_ok in HL.
+  change (fun c => (33 <=? c) && (c <=? 126)) with printable. rewrite HL. cbn [negb orb].
+  assert (NH : contains c_hash (b "http://" ++ h ++ P ++ c_qm :: Q) = false).
+  { rewrite !contains_app. rewrite (no_hash_host h Hh), (no_hash_path P HP). simpl.
+    change (existsb (fun d => d =? c_hash) Q) with (contains c_hash Q). now rewrite (no_hash_query Q HQ). }
+  rewrite NH.
+  change (b "http://" ++ h ++ P ++ c_qm :: Q) with (b "http" ++ c_col :: c_sl :: c_sl :: h ++ P ++ c_qm :: Q).
+  change (get_scheme (b "http" ++ c_col :: c_sl :: c_sl :: h ++ P ++ c_qm :: Q))
+    with (SScheme (b "http") (c_sl :: c_sl :: h ++ P ++ c_qm :: Q)).
+  cbv iota. change (map to_lower (b "http")) with (b "http").
+  match goal with |- context [parse_rest ?x ?y] =>
+    replace (parse_rest x y) with (POk (mkP x (Some h) P (Some Q)))
+      by (symmetry; eapply parse_authority_rest; eassumption) end.
+  cbn [p_scheme p_host p_path p_query]. now rewrite (resolve_path_clean P segs C).
+Qed.
+
+(* form 4: <//host/path?query> *)
+Theorem resolve_scheme_relative base h hc ht P segs Q :
+  h = hc :: ht -> forallb host_char h = true -> host_ok h = true ->
+  clean_path P segs -> forallb path_char P = true -> forallb query_char Q = true ->
+  link_ok (c_sl :: c_sl :: h ++ P ++ c_qm :: Q) ->
+  resolve_ref base (c_sl :: c_sl :: h ++ P ++ c_qm :: Q) = ROk (mkS (s_scheme base) h P Q).
+Proof.
+  intros Eh Hh Hok C HP HQ HL.
+  unfold resolve_ref, parse_ref. unfold link_ok in HL.
+  change (fun c => (33 <=? c) && (c <=? 126)) with printable. rewrite HL. cbn [negb orb].
+  assert (NH : contains c_hash (c_sl :: c_sl :: h ++ P ++ c_qm :: Q) = false).
+  { simpl. rewrite !contains_app. rewrite (no_hash_host h Hh), (no_hash_path P HP). simpl.
+    change (existsb (fun d => d =? c_hash) Q) with (contains c_hash Q). now rewrite (no_hash_query Q HQ). }
+  rewrite NH.
+  change (get_scheme (c_sl :: c_sl :: h ++ P ++ c_qm :: Q)) with SNone. cbv iota.
+  match goal with |- context [parse_rest ?x ?y] =>
+    replace (parse_rest x y) with (POk (mkP x (Some h) P (Some Q)))
+      by (symmetry; eapply parse_authority_rest; eassumption) end.
+  cbn [p_scheme p_host p_path p_query]. now rewrite (resolve_path_clean P segs C).
+Qed.
+
+(* ---------- one step of the listing: the Link forms give the intended next request ---------- *)
+
+Lemma next_request_of_target c base t trailer u :
+  contains c_gt t = false -> resolve_ref base t = ROk u -> s_path u <> [] ->
+  next_request c base (c_lt :: t ++ c_gt :: trailer) = NNext (s_path u) (request_query c (s_query u) []).
+Proof.
+  intros Hgt Hr Hp. unfold next_request. rewrite parse_link_wellformed by exact Hgt. rewrite Hr.
+  destruct (s_path u); [contradiction|reflexivity].
+Qed.
+
+(* the four absolute / host-relative / query-only forms of a link to (P, Q), whatever follows '>' *)
+Inductive link_form (base : surl) (P Q : str) : str -> Prop :=
+| LF_abs_path : link_form base P Q (P ++ c_qm :: Q)
+| LF_query_only : P = s_path base -> link_form base P Q (c_qm :: Q)
+| LF_absolute : s_scheme base = b "http" -> link_form base P Q (b "http://" ++ s_host base ++ P ++ c_qm :: Q)
+| LF_scheme_rel : link_form base P Q (c_sl :: c_sl :: s_host base ++ P ++ c_qm :: Q).
+
+Theorem next_request_link_forms c base P segs Q t trailer hc ht :
+  link_form base P Q t ->
+  clean_path P segs -> forallb path_char P = true -> forallb query_char Q = true ->
+  s_host base = hc :: ht -> forallb host_char (s_host base) = true -> host_ok (s_host base) = true ->
+  link_ok t -> contains c_gt t = false ->
+  next_request c base (c_lt :: t ++ c_gt :: trailer) = NNext P (request_query c Q []).
+Proof.
+  intros F C HP HQ Eh Hh Hok HL Hgt.
+  assert (Pne : P <> []) by (destruct (clean_path_head P segs C) as (? & ? & -> & _); discriminate).
+  destruct F as [| EP | Es |].
+  - rewrite (next_request_of_target c base _ trailer (mkS (s_scheme base) (s_host base) P Q)); auto.
+    now apply (resolve_abs_path base P segs Q).
+  - rewrite (next_request_of_target c base _ trailer (mkS (s_scheme base) (s_host base) P Q)); auto.
+    rewrite EP. apply (resolve_query_only base segs Q); auto. now rewrite <- EP.
+  - rewrite (next_request_of_target c base _ trailer (mkS (b "http") (s_host base) P Q)); auto.
+    now apply (resolve_absolute base (s_host base) hc ht P segs Q).
+  - rewrite (next_request_of_target c base _ trailer (mkS (s_scheme base) (s_host base) P Q)); auto.
+    now apply (resolve_scheme_relative base (s_host base) hc ht P segs Q).
+Qed.
+
+(* ---------- the string level refines the association-list level ---------- *)
+
+Definition show (v : qval) : str := match v with VS s => s | VN n => itoa n end.
+
+(* raw represents q: a registry reading raw (lenient parse, first match) finds what qget finds in q *)
+Definition repr (raw : str) (q : query) : Prop :=
+  forall k, lookup k (parse_query_lenient raw) = option_map show (qget k q).
+
+Lemma dec_digits_ok fuel n acc : Forall byte_ok acc -> Forall byte_ok (dec_digits fuel n acc).
+Proof.
+  revert n acc. induction fuel as [|f IH]; intros n acc H; simpl; [exact H|].
+  assert (A : Forall byte_ok ((48 + n mod 10) :: acc)).
+  { constructor; [|exact H]. unfold byte_ok. pose proof (N.mod_lt n 10 ltac:(discriminate)). lia. }
+  destruct (n <? 10); [exact A|now apply IH].
+Qed.
+
+Lemma itoa_ok n : Forall byte_ok (itoa n).
+Proof. apply dec_digits_ok. constructor. Qed.
+
+Lemma k_n_ok : Forall byte_ok k_n. Proof. repeat constructor. Qed.
+Lemma k_last_ok : Forall byte_ok k_last. Proof. repeat constructor. Qed.
+
+Lemma qget_qset k k' v q : qget k' (qset k v q) = if str_eqb k k' then Some v else qget k' q.
+Proof.
+  destruct (str_eqb k k') eqn:E.
+  - apply str_eqb_spec in E. subst. apply qget_qset_same.
+  - apply qget_qset_other. intro H. subst. now rewrite str_eqb_refl in E.
+Qed.
+
+Lemma repr_set raw q k v sv :
+  Forall byte_ok k -> Forall byte_ok sv -> show v = sv -> repr raw q ->
+  repr (set_query_params raw [(k, sv)]) (qset k v q).
+Proof.
+  intros Hk Hv Es R k'. rewrite set_query_param_lookup by assumption. rewrite qget_qset.
+  destruct (str_eqb k k'); [simpl; now rewrite Es|apply R].
+Qed.
+
+Lemma set_query_params_two raw k1 v1 k2 v2 k' :
+  Forall byte_ok k1 -> Forall byte_ok v1 -> Forall byte_ok k2 -> Forall byte_ok v2 -> k1 <> k2 ->
+  lookup k' (parse_query_lenient (set_query_params raw [(k1, v1); (k2, v2)])) =
+  if str_eqb k2 k' then Some v2 else if str_eqb k1 k' then Some v1 else lookup k' (parse_query_lenient raw).
+Proof.
+  intros H1 H1v H2 H2v Hne.
+  rewrite set_query_params_spec by (repeat constructor; assumption).
+  rewrite lookup_app. unfold not_set. cbn [existsb fst].
+  set (f := fun x : str => negb (str_eqb x k1 || (str_eqb x k2 || false))).
+  assert (SYM : forall a c0, str_eqb a c0 = str_eqb c0 a).
+  { intros a c0. destruct (str_eqb a c0) eqn:X; destruct (str_eqb c0 a) eqn:Y; try reflexivity.
+    - apply str_eqb_spec in X. subst. now rewrite str_eqb_refl in Y.
+    - apply str_eqb_spec in Y. subst. now rewrite str_eqb_refl in X. }
+  destruct (str_eqb k2 k') eqn:E2.
+  - apply str_eqb_spec in E2. subst k'.
+    rewrite (lookup_filter_removed k2 f) by (unfold f; rewrite str_eqb_refl; now rewrite orb_true_r).
+    cbn [lookup]. rewrite (str_eqb_neq k1 k2 Hne). now rewrite str_eqb_refl.
+  - destruct (str_eqb k1 k') eqn:E1.
+    + apply str_eqb_spec in E1. subst k'.
+      rewrite (lookup_filter_removed k1 f) by (unfold f; now rewrite str_eqb_refl).
+      cbn [lookup]. now rewrite str_eqb_refl.
+    + rewrite (lookup_filter_other k' f) by (unfold f; rewrite (SYM k' k1), (SYM k' k2), E1, E2; reflexivity).
+      cbn [lookup]. rewrite E1, E2. now destruct (lookup k' (parse_query_lenient raw)).
+Qed.
+
+(* the request the client really sends (setQueryParams on the raw query) is, for every key a
+   registry may look up, the request of the association-list model (Paging.mk_request) *)
+Theorem request_query_refines c p raw q last :
+  Forall byte_ok last -> repr raw q ->
+  repr (request_query c raw last) (u_query (mk_request c (mkUrl p q) last)).
+Proof.
+  intros Hl R. unfold request_query, page_params, mk_request. cbn [u_query u_path].
+  destruct (0 <? c_n c)%Z; destruct (sends_last (c_kind c) && negb (is_empty last)); cbn [app].
+  - intro k'. rewrite set_query_params_two; try assumption; try apply k_n_ok; try apply k_last_ok;
+      try apply itoa_ok; try exact k_n_neq_last.
+    rewrite !qget_qset. destruct (str_eqb k_last k'); [reflexivity|].
+    destruct (str_eqb k_n k'); [reflexivity|apply R].
+  - apply repr_set; auto; [apply k_n_ok|apply itoa_ok].
+  - apply repr_set; auto. apply k_last_ok.
+  - exact R.
+Qed.
+
+(* the empty query represents the empty association list; the referrers start query its model *)
+Lemma repr_nil : repr [] [].
+Proof. intro k. reflexivity. Qed.
+
+Lemma repr_referrers_q0 a : Forall byte_ok a -> repr (referrers_q0 a) (referrers_query a).
+Proof.
+  intros Ha k. unfold referrers_q0, referrers_query. destruct (is_empty a); [reflexivity|].
+  rewrite parse_query_lenient_eq.
+  assert (RP : raw_params (k_at ++ c_eq :: query_escape a) = [k_at ++ c_eq :: query_escape a]).
+  { unfold raw_params. rewrite split_on_plain.
+    - reflexivity.
+    - rewrite contains_app. simpl. now rewrite (query_escape_no_amp a Ha). }
+  rewrite RP. cbn [map]. unfold parse_param.
+  rewrite cut_app by reflexivity. unfold unescape_or_raw at 2. rewrite (escape_roundtrip a Ha).
+  change (unescape_or_raw k_at) with k_at. cbn [lookup qget option_map show].
+  now destruct (str_eqb k_at k).
 Qed.
